@@ -1,4 +1,3 @@
 package main
 
-func cmdSelftest(args []string) int { return 2 }
 func cmdAll(args []string) int      { return 2 }
